@@ -57,9 +57,32 @@ def gen_bn_history(rng, tier):
         w = rng.randrange(len(worlds))
         W = worlds[w]
         k = rng.choice(["addNode", "addEdge", "addEdge", "addEdge", "removeNode", "addCpd", "addCpd", "addCpd", "removeCpd",
-                        "do", "copy", "check", "randcpds"])
+                        "do", "copy", "check", "randcpds", "nodesW", "edgesW"])
         op = {"k": k, "w": w}
-        if k == "addNode":
+        if k == "nodesW":
+            # add_nodes_from(nodes, weights=..., latent=...): the weights list may have the wrong length (then the call is rejected)
+            vs = rng.sample(range(NVARS), rng.randint(1, 3))
+            op["vs"] = vs
+            op["latent"] = [rng.random() < .3 for _ in vs]
+            op["nw"] = len(vs) if rng.random() < .5 else rng.choice([len(vs) - 1 or len(vs) + 1, len(vs) + 1])   # an empty list means "no weights"
+            if op["nw"] == len(vs):
+                W["nodes"] |= set(vs)
+        elif k == "edgesW":
+            es = []
+            E2, N2 = set(W["edges"]), set(W["nodes"])
+            for _ in range(rng.randint(1, 3)):
+                u, v = rng.randrange(NVARS), rng.randrange(NVARS)
+                if u != v and (u, v) not in E2 and not shadow_has_path(E2, v, u):
+                    es.append([u, v])
+                    E2.add((u, v))
+                    N2 |= {u, v}
+            if not es:
+                continue
+            op["es"] = es
+            op["nw"] = len(es) if rng.random() < .5 else rng.choice([len(es) - 1 or len(es) + 1, len(es) + 1])
+            if op["nw"] == len(es):
+                W["edges"], W["nodes"] = E2, N2
+        elif k == "addNode":
             op["v"] = rng.randrange(NVARS)
             op["latent"] = rng.random() < .3
             W["nodes"].add(op["v"])
@@ -183,6 +206,36 @@ def run_bn_history(case, drv):
             elif k == "addEdge":
                 mop = {"k": "addEdge", "u": op["u"], "v": op["v"]}
                 bn.add_edge(pn[op["u"]], pn[op["v"]])
+            elif k in ("nodesW", "edgesW"):
+                wts = [0.5 + i for i in range(op["nw"])]
+                try:
+                    if k == "nodesW":
+                        bn.add_nodes_from([pn[v] for v in op["vs"]], weights=wts, latent=list(op["latent"]))
+                        mops = [{"k": "addNode", "v": v, "latent": l} for v, l in zip(op["vs"], op["latent"])]
+                    else:
+                        bn.add_edges_from([(pn[u], pn[v]) for u, v in op["es"]], weights=wts)
+                        mops = [{"k": "addEdge", "u": u, "v": v} for u, v in op["es"]]
+                    accepted = True
+                except Exception as e:  # noqa
+                    accepted = False
+                    exc = f"{type(e).__name__}: {e}"
+                want = op["nw"] == len(op["vs"] if k == "nodesW" else op["es"])
+                if accepted != want:
+                    return fail(f"step {step_i} {k}: {len(op['vs'] if k == 'nodesW' else op['es'])} items with {op['nw']} weights were "
+                                f"{'accepted' if accepted else 'rejected (' + exc + ')'}")
+                if not accepted:
+                    n_err += 1
+                    if impl_snapshot(bn) != before[w]:
+                        return fail(f"step {step_i} {k}: the call was rejected ({exc}) but it changed the model "
+                                    f"(nodes {sorted(map(str, bn.nodes()))}, latents {sorted(map(str, bn.latents))})")
+                else:
+                    for mop_ in mops:
+                        r = drv.call("bn_step", state=st, bnop=mop_)
+                        if r["out"] != "ok":
+                            return fail(f"step {step_i} {k}: MODEL rejects {mop_} of an accepted batch")
+                        st = r["state"]
+                    worlds[w] = (bn, st)
+                    n_ok += 1
             elif k == "removeNode":
                 mop = {"k": "removeNode", "v": op["v"]}
                 bn.remove_node(pn[op["v"]])
@@ -306,9 +359,20 @@ def gen_other(rng, tier):
             cl = [sorted(rng.sample("ABCDE", rng.randint(1, 3))) for _ in range(2)]
             if rng.random() < .75:
                 cl = [sorted(c) for c in rng.sample(pool, 2)]
+            if rng.random() < .2:
+                # a weighted batch: add_edges_from(ebunch, weights=...) is add_edge for every pair, with every guard of add_edge
+                batch = [[sorted(c) for c in rng.sample(pool, 2)] for _ in range(rng.randint(1, 3))]
+                if rng.random() < .3:
+                    batch.append([batch[0][0], batch[0][0]])
+                ops.append(["edges_w", batch])
+                continue
             ops.append(rng.choice([["edge", cl[0], cl[1]], ["edge", cl[0], cl[1]], ["edge", cl[0], cl[0]], ["node", cl[0]], ["copy"]]))
         else:
             a, b = rng.choice("ABCD"), rng.choice("ABCD")
+            if rng.random() < .15:
+                batch = [[rng.choice("ABCD"), rng.choice("ABCD")] for _ in range(rng.randint(1, 3))]
+                ops.append(["edges_w", batch])
+                continue
             ops.append(rng.choice([["edge", a, b], ["edge", a, b], ["node", a], ["factor", sorted({a, b})], ["copy"], ["poke"]]))
     return {"kind": kind, "ops": ops}
 
@@ -337,6 +401,9 @@ def run_other(case, drv):
                     m.add_edge(tuple(op[1]), tuple(op[2]))
                 else:
                     m.add_edge(op[1], op[2])
+            elif op[0] == "edges_w":
+                eb = [(tuple(a), tuple(b)) if kind == "jt" else (a, b) for a, b in op[1]]
+                m.add_edges_from(eb, weights=[1.0 + j for j in range(len(eb))])
             elif op[0] == "nodes":
                 m.add_nodes_from([tuple(sorted(c)) for c in op[1]])
             elif op[0] == "node":
@@ -355,7 +422,8 @@ def run_other(case, drv):
             res = "ok"
         except Exception as e:  # noqa
             res = "err"
-            if snap(m) != before:
+            # (a batch is a sequence of single operations: the pairs before the offending one stay)
+            if op[0] != "edges_w" and snap(m) != before:
                 return fail(f"{kind} step {i} {op}: rejected operation ({type(e).__name__}: {e}) changed the model")
             rejected += 1
         if kind == "dbn" and not nx.is_directed_acyclic_graph(m):
@@ -365,6 +433,10 @@ def run_other(case, drv):
                 return fail(f"JunctionTree contains a cycle after {op}")
         if kind == "mn" and op[0] == "edge" and res == "ok" and op[1] == op[2]:
             return fail("MarkovNetwork accepted a self loop")
+        if kind == "mn" and any(u == v for u, v in m.edges()):
+            return fail(f"MarkovNetwork contains a self loop after {op}")
+        if kind == "jt" and any(not (set(u) & set(v)) for u, v in m.edges()):
+            return fail(f"JunctionTree contains an edge between disjoint cliques after {op}")
         for c, b in zip(copies, cb):
             if snap(c) != b:
                 return fail(f"{kind} step {i} {op}: editing the original changed an earlier copy")
